@@ -257,9 +257,9 @@ fn fast_leftover_strategy() -> BoxedStrategy<Leftover> {
         2 => Just(Leftover::None),
         3 => any::<bool>().prop_map(|newline| Leftover::LockOnlyDead { newline }),
         3 => Just(Leftover::LockMetaDead),
-        1 => (1u64..5000).prop_map(|drift_ms| Leftover::LockMetaDeadDrift { drift_ms }),
+        2 => (1u64..5000).prop_map(|drift_ms| Leftover::LockMetaDeadDrift { drift_ms }),
         2 => Just(Leftover::MetaOnlyDead),
-        1 => (any::<bool>(), 0u8..3).prop_map(|(init_pid, meta)| Leftover::LiveLock { init_pid, meta }),
+        2 => (any::<bool>(), 0u8..3).prop_map(|(init_pid, meta)| Leftover::LiveLock { init_pid, meta }),
     ]
     .boxed()
 }
